@@ -212,7 +212,7 @@ class Runner:
                   "pre": self.proj_trace(pid, tr) if tr is not None else T0, "post": T0, "w": 0,
                   "assess": {"status": "none", "score": 0, "ret": gb.NN}, "disc": [], "hasdisc": False,
                   "retdiff": [], "undo": {"status": "none", "post": T0, "w": 0},
-                  "alt": {"status": "none", "post": T0, "w": 0}, "alt2": {"status": "none", "post": T0, "w": 0}, "alt3": {"status": "none", "post": T0, "w": 0}, "altm": {"status": "none", "post": T0, "w": 0}, "flagmode": "none", "consform": 0, "argmode": "array", "tagvars": [],
+                  "alt": {"status": "none", "post": T0, "w": 0}, "alt2": {"status": "none", "post": T0, "w": 0}, "alt3": {"status": "none", "post": T0, "w": 0}, "altm": {"status": "none", "post": T0, "w": 0}, "flagmode": "none", "consform": 0, "argmode": "array", "tagvars": [], "retp": T0["ret"], "hasretp": False,
                   "subt": {"choices": [], "score": 0}, "w2": 0, "haspre": tr is not None, "extra": []}
             try:
                 newtr = self.step(ev, rq, e, p, tr, cur_argsV, k1, k2, k3)
@@ -390,6 +390,12 @@ class Runner:
         ev["w"] = gb.fx(w)
         ev["assess"] = self.self_assess(pid, new)
         ev["retdiff"] = self.proj_retdiff(retdiff, tr.get_retval())
+        try:        # the value edit hands back to its caller (primal of the returned retdiff)
+            from genjax._src.core.compiler.interpreters.incremental import Diff as _Diff
+            ev["retp"] = gb.proj_val(_Diff.tree_primal(retdiff))
+            ev["hasretp"] = True
+        except Exception:
+            pass
         if isinstance(bwd, Update):
             ev["disc"] = gb.proj_chm(bwd.constraint, e["addrs"])
             ev["hasdisc"] = True
@@ -491,7 +497,7 @@ def run_case_vmap(runner, tid, case, nb=3):
                 "undo": {"status": "none", "post": T0, "w": 0}, "alt": {"status": "none", "post": T0, "w": 0},
                 "alt2": {"status": "none", "post": T0, "w": 0}, "alt3": {"status": "none", "post": T0, "w": 0},
                 "altm": {"status": "none", "post": T0, "w": 0}, "flagmode": "none", "subt": {"choices": [], "score": 0},
-                "w2": 0, "haspre": False, "extra": [], "tagvars": [], "consform": 0, "argmode": "array"}
+                "w2": 0, "haspre": False, "extra": [], "tagvars": [], "consform": 0, "argmode": "array", "retp": gb.NN, "hasretp": False}
 
     def sl(x, i):
         return jax.tree_util.tree_map(lambda v: v[i], x)
